@@ -82,7 +82,7 @@ PROPS = {
         explanation="C10_no_panic (all types, all readers), C10_sound/C10_valid/C10_rejects_invalid (accepted => hasType and serialize = input), C10_reencode, C10_sound_reader (exact consumption on any reader), C10_bitlistCheck_agrees/C10_bitvectorCheck_agrees (= C18 model)",
         assumptions=["t.wf; variable-size top level (C10_fixed_top states what happens otherwise)", "C10_reencode: input < 2^32 bytes", "next-off wrap modelled as the SubScope refusal it causes (scopes < 2^63)"],
         trusted=COMMON_TRUST + ["harness/flat.go recipe"]),
-    "C13": P(13, ["C13"],
+    "C13": P(13, ["C13", "C13s"],
         rule="per sampled (type,value): io.dec over schedules {1,2,3,7,half,all}x{sep,with,fail} on the complete stream, every failure/end position 0..len-1 x the schedules + all/with + random; corrupted encodings; "
              "io.enc for every writer failure position 0..len+1 and no failure; primitive io.read: random data/scope/schedule/end mode with random request programs (raw+typed reads, nested sub-scopes, beyond-scope, zero-length), exhaustive k x schedule x end mode on fixed streams; "
              "primitive io.write: random op sequences x failure position x short-write modes; distinct = distinct op shapes x outcome",
